@@ -1171,7 +1171,8 @@ impl<'a> Visitor<'a> {
                 .get(*included.first().unwrap())
                 .as_ref()
                 .map(CssStmt::copy_without_children);
-            let mut outer_copy = self.css_tree.add_stmt(inner_copy.unwrap(), None);
+            let inner_copy = self.css_tree.add_stmt(inner_copy.unwrap(), None);
+            let mut outer_copy = inner_copy;
 
             for node in &included[1..] {
                 let copy = self
@@ -1187,7 +1188,7 @@ impl<'a> Visitor<'a> {
                 outer_copy = copy_idx;
             }
 
-            Some(outer_copy)
+            Some(inner_copy)
         } else {
             let inner_copy = self
                 .css_tree
